@@ -381,6 +381,23 @@ def r10_8(ctx):
 
     r07_1(ctx)
     r07_8(ctx)
+    # --- the declared type of an operator node is the type of the term it emits (shift: the left operand's)
+    from .c02 import r02_4
+
+    r02_4(ctx)
+    # --- resource lint: the parameter / return types the macro table announces for QEMU's bit helpers are their real ones
+    import json
+
+    mp = ctx.env.repo / "Resources" / "Hexagon" / "qemu_rzil_macros.json"
+    ctx.need(mp.is_file(), "anchor missing: Resources/Hexagon/qemu_rzil_macros.json")
+    macros = json.loads(mp.read_text()).get("macros", {})
+    for name, (ret, params) in sorted(O.QEMU_BIT_HELPERS.items()):
+        m = macros.get(name)
+        if m is None:
+            ctx.note(f"macro table has no entry for {name}")
+            continue
+        ctx.check(f"macro table entry {name}", m.get("return_type") == ret and m.get("params") == params, f"{ret} {name}({', '.join(params)})",
+                  f"{m.get('return_type')} {name}({', '.join(m.get('params', []))})", "Resources/Hexagon/qemu_rzil_macros.json")
 
 
 @rule("R10.9", "C10", "a truth value never reaches a bitvector position as it is: every operand of an arithmetic, bit, shift or comparison node has gone through a promotion or conversion (which turn an IL bool into ITE(b, 1, 0))", min_instances=20)
